@@ -164,7 +164,7 @@ def gen_riseset(rng, n, tier="quick"):
             yield Case(name, "%s %s %s %s %s" % (name, F(lat), F(lon), I(d.toordinal()), zones.fixed(0).tok),
                        opt_inst(v, UTC) if st == "ok" else E(v),
                        {"date": str(d), "latitude": lat, "longitude": lon, "zone": "fixed+0",
-                        "sweep_day": k}, ("sweep",))
+                        "sweep_day": k}, ("sweep",), live={"result": (st, v)})
     for i in range(n):
         lat = gens.rand_lat(rng, polar=(rng.random() < 0.3))
         lon = gens.rand_lon(rng)
@@ -203,7 +203,7 @@ def gen_riseset(rng, n, tier="quick"):
             yield Case(name, "%s %s %s %s %s" % (name, F(lat), F(lon), I(d.toordinal()), z.tok),
                        opt_inst(v, z.tzinfo) if st == "ok" else E(v),
                        {"date": str(d), "latitude": lat, "longitude": lon, "zone": z.describe()},
-                       tags)
+                       tags, live={"result": (st, v)})
 
 
 def gen_phase(rng, n, tier="quick"):
